@@ -1,5 +1,7 @@
 import SeqVerif.Base.Proto
 import SeqVerif.Model.Cache
+import SeqVerif.Model.Budget
+import SeqVerif.Extracted.C18
 /-!
 Driver for C18 (package cache).  Requests:
 
@@ -10,6 +12,8 @@ Driver for C18 (package cache).  Requests:
   `trace <sizeLimit> <entrySize> <label>;...`       one label per critical section (`SV.Cache.run`)
       label = `n` | `G<t>.<c>.<k>` | `W<t>` | `F<t>.<v>.<sz>` | `E<t>` | `P<t>` | `x<c>` | `r` | `cb` | `ck` | `z` | `b` |
               `C` (one whole Cleanup call: `cb` followed by one `ck` per bucket)
+  `split <CacheSize> <FracSize> <SortCacheSize> <effective sort size|x> <limits|->`  the cache budget (SV.Budget, with the
+      rule the source has: extracted fact sortCacheCapped)
   `rb <flags as 0/1 per bucket>` / `rbold <flags>`  ReleaseBuckets (repaired / historical swap loop) on buckets 0..n-1
 
 Response of seq/trace: `ok <outs of step 1>@<getSize>;... | size=<getSize> live=<liveSum> buckets=<ids> gens=<sizes> caches=<..>`
@@ -99,16 +103,18 @@ def parseLabel (s : String) : Option Label :=
 
 /-- sequential run that remembers `getSize` after every op; `Sum.inr gc` is one maintenance tick (`tickOps gc`),
 of which only the resulting size is printed (the real tick returns nothing) -/
-def goSeq (cfg : Cfg) : St → List (Op ⊕ Bool) → Nat → List String → String
-  | s, [], _, acc => s!"ok {fmtList id acc.reverse ";"} | {fmtState s}"
+def goSeq (cfg : Cfg) (short : Bool := false) : St → List (Op ⊕ Bool) → Nat → List String → String
+  | s, [], _, acc =>
+    if short then s!"ok {fmtList id acc.reverse ";"} | size={getSize s} gens={fmtInts (s.glist.map s.gsize)}"
+    else s!"ok {fmtList id acc.reverse ";"} | {fmtState s}"
   | s, .inl o :: os, i, acc =>
     match seqOp cfg s o with
     | none => s!"err step {i}"
-    | some (s1, out) => goSeq cfg s1 os (i + 1) (s!"{fmtOuts out}@{getSize s1}" :: acc)
+    | some (s1, out) => goSeq cfg short s1 os (i + 1) (s!"{fmtOuts out}@{getSize s1}" :: acc)
   | s, .inr gc :: os, i, acc =>
     match runSeq cfg s (tickOps gc) with
     | none => s!"err step {i}"
-    | some (s1, _) => goSeq cfg s1 os (i + 1) (s!"{if gc then "T" else "t"}@{getSize s1}" :: acc)
+    | some (s1, _) => goSeq cfg short s1 os (i + 1) (s!"{if gc then "T" else "t"}@{getSize s1}" :: acc)
 
 def parseSeqItem (s : String) : Option (Op ⊕ Bool) :=
   if s = "t" then some (.inr false) else if s = "T" then some (.inr true) else (parseOp s).map .inl
@@ -131,8 +137,23 @@ def step (line : String) : String :=
   match fields line with
   | ["seq", lim, es, ops] =>
     match lim.toNat?, es.toNat?, (splitList ops ";").mapM parseSeqItem with
-    | some lim, some es, some ops => goSeq ⟨lim, es⟩ init ops 0 []
+    | some lim, some es, some ops => goSeq ⟨lim, es⟩ false init ops 0 []
     | _, _, _ => "bad-op"
+  | ["seqsz", lim, es, ops] =>
+    match lim.toNat?, es.toNat?, (splitList ops ";").mapM parseSeqItem with
+    | some lim, some es, some ops => goSeq ⟨lim, es⟩ true init ops 0 []
+    | _, _, _ => "bad-op"
+  | ["split", c, _, sc, "x", "-"] =>
+    match c.toNat?, sc.toNat? with
+    | some c, some sc =>
+      if SV.Budget.acceptedOf SV.Extracted.C18.sortCacheCapped c sc then "ok accepted-by-the-model" else "ok rejected"
+    | _, _ => "bad-op"
+  | ["split", c, f, sc, rs, ls] =>
+    match c.toNat?, f.toNat?, sc.toNat?, rs.toNat?, natList? ls with
+    | some c, some f, some sc, some rs, some ls =>
+      if !SV.Budget.acceptedOf SV.Extracted.C18.sortCacheCapped c sc then "ok rejected-by-the-model" else
+      s!"ok sort={fmtBool (decide (rs = SV.Budget.sortSizeOf SV.Extracted.C18.sortCacheCapped c f sc))} lim={String.join ((SV.Budget.checkLimits c rs ls).map fmtBool)}"
+    | _, _, _, _, _ => "bad-op"
   | ["trace", lim, es, ls] =>
     match lim.toNat?, es.toNat?, (splitList ls ";").mapM (fun x => if x = "C" then some none else (parseLabel x).map some) with
     | some lim, some es, some ls => goTrace ⟨lim, es⟩ init ls 0 []
